@@ -314,3 +314,83 @@ Proof.
     apply orb_true_iff in Hbad. destruct Hbad as [Hb|Hb]; [apply Z.ltb_lt in Hb; lia|].
     apply orb_true_iff in Hb. destruct Hb as [Hb|Hb]; apply Z.ltb_lt in Hb; lia.
 Qed.
+
+(* ---------- end to end: CalculateDeploy then commit ---------- *)
+Lemma wreq_validate_mem raw req : wreq_validate raw = inr req -> 0 <= rq_mem_req req.
+Proof.
+  unfold wreq_validate. intros H.
+  destruct ((rq_mem_lim raw <? 0) || (rq_mem_req raw <? 0)) eqn:E1; [discriminate|].
+  apply orb_false_iff in E1. destruct E1 as [E1 E2]. apply Z.ltb_ge in E1, E2.
+  destruct (flt _ _ || flt _ _); [discriminate|].
+  destruct (feq _ _ && rq_bind raw); [discriminate|].
+  inversion H; subst; clear H. cbn [rq_mem_req].
+  destruct ((rq_mem_req raw =? 0) && (0 <? rq_mem_lim raw)); lia.
+Qed.
+
+Lemma valid_node_wf info : valid_node info = true ->
+  wf_maps info /\ 0 <= nr_mem (get_available_nofloat info).
+Proof.
+  unfold valid_node, wf_info. rewrite !andb_true_iff.
+  intros [[[[[[[[[NcC NuC] NcM] NuM] NcN] V] M1] M2] Up] Un].
+  apply nodup_keys_NoDup in NcC, NcN. apply Z.leb_le in M1, M2.
+  split; [split; auto|]. simpl. lia.
+Qed.
+
+Lemma alloc_by_memory_node info count req eps ws :
+  do_alloc_by_memory info count req = inr (eps, ws) -> forall w, In w ws -> wr_numanode w = EmptyString.
+Proof.
+  unfold do_alloc_by_memory. intros H w Hw. destruct (fgt _ _); [discriminate|].
+  destruct (_ && _); [discriminate|]. inversion H as [[E1 E2]]. rewrite <- E2 in Hw.
+  apply repeat_n_in in Hw. rewrite Hw. reflexivity.
+Qed.
+
+Section E2E.
+Variable sortf : list keyed -> outcome (list keyed).
+Hypothesis sortf_perm : forall l, exists l', sortf l = Ok l' /\ Permutation l' l.
+
+(* C04 end to end: whatever CalculateDeploy returns for a valid node can be committed *)
+Theorem deploy_commit_valid info base maxshare count raw order fuel eps ws :
+  calculate_deploy_g sortf info base maxshare count raw order fuel = Ok (inr (eps, ws)) ->
+  valid_node info = true -> NoDup order -> ~ In EmptyString order -> 0 < base -> 0 <= count ->
+  validate_ok (commit_usage info ws) = true
+  /\ nr_mem (ni_usage (commit_usage info ws)) <= nr_mem (ni_cap info).
+Proof.
+  intros H Hv Nd Hne Hb Hc.
+  destruct (valid_node_wf info Hv) as (Wf & Hfree).
+  unfold calculate_deploy_g in H.
+  destruct (wreq_validate raw) as [[|]|req] eqn:Ev; try discriminate.
+  pose proof (wreq_validate_mem raw req Ev) as Hm.
+  destruct (rq_bind req) eqn:Eb; simpl in H.
+  - (* cpu-bind *)
+    assert (H' : calculate_deploy_g sortf info base maxshare count raw order fuel = Ok (inr (eps, ws))).
+    { unfold calculate_deploy_g. rewrite Ev, Eb. exact H. }
+    destruct (deploy_fit sortf sortf_perm _ _ _ _ _ _ _ _ _ _ H' Ev Eb Wf Nd Hne Hb Hm Hfree) as (_ & F & Wm).
+    apply (commit_valid info (rq_mem_req req) ws Hv Hm F Wm).
+    destruct (deploy_struct sortf _ _ _ _ _ _ _ _ _ _ H' Ev Eb) as (plans & Ep & _ & _ & ->).
+    destruct (get_cpu_plans_content sortf sortf_perm _ _ _ _ _ _ _ _ Ep Hb (proj2 Wf) Nd (avail_nodup info Wf)) as (_ & _ & Sh).
+    apply Forall_forall. intros w Hw. apply in_map_iff in Hw. destruct Hw as (tp & <- & Htp). simpl.
+    apply In_firstn_in in Htp. destruct (Sh tp Htp) as (IDS & S). apply (shape_keys_nodup _ _ _ _ S).
+  - (* memory only *)
+    inversion H as [H1]. 
+    destruct (alloc_by_memory_fit info count req eps ws H1 Hc Hm Hfree) as (L & M & W).
+    apply (commit_valid info (rq_mem_req req) ws Hv Hm).
+    + assert (Et : forall w, In w ws -> wr_cpumap w = [] /\ wr_numanode w = EmptyString).
+      { intros w Hw. split; [apply (W w Hw)|apply (alloc_by_memory_node _ _ _ _ _ H1 w Hw)]. }
+      unfold fits. cbv zeta. repeat split.
+      * intros id. assert (used (map snd (tagged_of ws)) id = 0); [|lia].
+        apply used_zero. intros p Hp. apply in_map_iff in Hp. destruct Hp as (tp & <- & Htp).
+        unfold tagged_of in Htp. apply in_map_iff in Htp. destruct Htp as (w & <- & Hw). simpl.
+        rewrite (proj1 (Et w Hw)). simpl. tauto.
+      * exfalso. unfold tagged_of in H0. apply in_map_iff in H0. destruct H0 as (w & <- & Hw). simpl in H2.
+        apply H2. apply (Et w Hw).
+      * exfalso. unfold tagged_of in H0. apply in_map_iff in H0. destruct H0 as (w & <- & Hw). simpl in H2.
+        apply H2. apply (Et w Hw).
+      * unfold tagged_of. rewrite map_length. lia.
+      * intros tp c Htp Hcn. unfold tagged_of in Htp. apply in_map_iff in Htp. destruct Htp as (w & <- & Hw).
+        simpl in Hcn. rewrite (proj1 (Et w Hw)) in Hcn. destruct Hcn.
+    + intros w Hw. destruct (W w Hw) as (W1 & W2 & W3). split; auto. rewrite W3.
+      assert (wr_numanode w = EmptyString) by (apply (alloc_by_memory_node _ _ _ _ _ H1 w Hw)).
+      rewrite H0. reflexivity.
+    + apply Forall_forall. intros w Hw. destruct (W w Hw) as (_ & W2 & _). rewrite W2. constructor.
+Qed.
+End E2E.
